@@ -2,7 +2,8 @@
 // fresh VM, then evaluate queries by running SQF text through the real config operators.
 // case: {"id":..,"files":["<config text 1>","<config text 2>"],
 //        "ops":[[<abstract statements of file 1, echoed>],[..]],        (optional)
-//        "queries":[{"q":"row","path":["A","x"]},{"q":"getNumber","path":[..]},...],
+//        "queries":[{"q":"row","path":["A","x"]},{"q":"getNumber","path":[..]},
+//                   {"q":"table","names":["A","x","m"],"depth":3,"prune":b},...],
 //        "force":bool}      run the queries even if the inheritance relation was observed cyclic
 // emits
 //   {"e":"Obs","k":"begin","f":i,"ops":[..]}                      before file i is loaded
@@ -10,7 +11,7 @@
 //   {"e":"Obs","k":"ask","q":..,"path":[..]}                      (force mode) before a query
 //   {"e":"Obs","k":"row","path":[..],"null":b,"at":[..],"name":s,"isn":b,"ist":b,"isa":b,"isc":b,
 //        "num":proj,"txt":proj,"arr":proj,"inh":{"null":b,"at":[..]},"hier":[s..],"cnt":n,
-//        "sel":[{"null":b,"at":[..]}..],"res":s}                  one per "row" query
+//        "sel":[{"null":b,"at":[..]}..],"res":s}                  one per "row" query / per path of a "table"
 //   {"e":"Obs","k":"q","q":..,"path":[..],"r":proj|cfg,"res":s}   one per single-operator query
 //   {"e":"Obs","k":"skipped","n":N}                               queries not run (cyclic, !force)
 // A config value is projected as {"null":b,"at":[names from below configFile down to the entry]},
@@ -150,6 +151,87 @@ namespace
     }
 }
 
+// one row of the query table: every config operator on configFile >> path[0] >> path[1] ...
+static bool eval_row(runner& r, sqf::runtime::confighost& host, const std::string& root_name, const J& path, bool announce)
+{
+    if (announce)
+    {
+        J a = ev("Obs");
+        a.set("k", "ask").set("q", "row").set("path", path);
+        emit(a);
+    }
+    std::string pe = path_expr(path);
+    J o = ev("Obs");
+    o.set("k", "row").set("path", path);
+    // 1. the lookup itself and everything config.sqf also applies to configNull
+    auto r1 = r.run("vd__c = " + pe + "; vd__r = [vd__c, isNull vd__c, isNumber vd__c, isText vd__c, isArray vd__c, isClass vd__c, "
+                    "getNumber vd__c, getText vd__c, getArray vd__c]");
+    std::string res = r.res;
+    auto cv = elem(r1, 0);
+    bool isnull = cv.empty() || !cv.is<sqf::runtime::t_config>() || cv.data<sqf::types::d_config, config>().is_null();
+    J cj = cfg_json(host, cv);
+    o.set("null", isnull).set("at", cj.at("at"));
+    o.set("nullop", as_bool(elem(r1, 1)));
+    o.set("isn", as_bool(elem(r1, 2))).set("ist", as_bool(elem(r1, 3))).set("isa", as_bool(elem(r1, 4))).set("isc", as_bool(elem(r1, 5)));
+    o.set("num", proj(elem(r1, 6))).set("txt", proj(elem(r1, 7))).set("arr", proj(elem(r1, 8)));
+    // 2. operators that raise an error on configNull: only on entries that exist
+    J inh = J::obj(); inh.set("null", true).set("at", J::arr());
+    J hier = J::arr(), sel = J::arr();
+    long long cnt = 0;
+    std::string cname;
+    if (!isnull)
+    {
+        auto r2 = r.run("vd__r = [inheritsFrom vd__c, configHierarchy vd__c, count vd__c, configName vd__c]");
+        res += "/" + r.res;
+        inh = cfg_json(host, elem(r2, 0));
+        auto h = elem(r2, 1);
+        if (!h.empty() && h.is<sqf::runtime::t_array>())
+        {
+            for (auto& e : *h.data<sqf::types::d_array>())
+            {
+                if (!e.empty() && e.is<sqf::runtime::t_string>()) { hier.push(e.data<sqf::types::d_string, std::string>()); }
+                else if (!e.empty() && e.is<sqf::runtime::t_config>())
+                {
+                    auto ec = e.data<sqf::types::d_config, config>();
+                    hier.push(ec.is_null() ? std::string("<null>") : std::string(ec.navigate(host)->name));
+                }
+                else { hier.push("?"); }
+            }
+        }
+        else { hier.push("<no array>"); }
+        auto cn = elem(r2, 2);
+        cnt = (!cn.empty() && cn.is<sqf::runtime::t_scalar>()) ? (long long)cn.data<sqf::types::d_scalar, float>() : -1;
+        auto nm = elem(r2, 3);
+        cname = (!nm.empty() && nm.is<sqf::runtime::t_string>()) ? nm.data<sqf::types::d_string, std::string>() : "<no string>";
+        if (cnt > 0 && cnt < 64)
+        {
+            std::string t = "vd__r = [";
+            for (long long i = 0; i < cnt; i++) { t += (i ? ", " : "") + std::string("vd__c select ") + std::to_string(i); }
+            t += "]";
+            auto r3 = r.run(t);
+            res += "/" + r.res;
+            for (long long i = 0; i < cnt; i++) { sel.push(cfg_json(host, elem(r3, (size_t)i))); }
+        }
+    }
+    o.set("name", cname).set("inh", inh).set("hier", hier).set("cnt", cnt).set("sel", sel).set("root", root_name).set("res", res);
+    emit(o);
+    return isnull;
+}
+// the table over all paths of length <= depth over names; prune: below a path the implementation
+// answers with configNull only the last name (the missing one) is tried
+static void eval_table(runner& r, sqf::runtime::confighost& host, const std::string& root_name, const J& names, J& path, int depth, bool prune, bool announce)
+{
+    bool isnull = eval_row(r, host, root_name, path, announce);
+    if (depth <= 0) { return; }
+    for (size_t i = 0; i < names.a.size(); i++)
+    {
+        if (isnull && prune && i + 1 != names.a.size()) { continue; }
+        path.push(names.a[i]);
+        eval_table(r, host, root_name, names, path, depth - 1, prune, announce);
+        path.a.pop_back();
+    }
+}
+
 static void cmd_config(const J& c)
 {
     sqf::runtime::runtime::runtime_conf conf;
@@ -202,82 +284,35 @@ static void cmd_config(const J& c)
     for (auto& q : queries)
     {
         std::string kind = q.str("q", "row");
+        if (kind == "table")
+        {
+            J path = J::arr();
+            eval_table(r, host, root_name, q.at("names"), path, (int)q.num("depth", 3), q.boolean("prune", false), force);
+            continue;
+        }
         const J& path = q.at("path");
+        if (kind == "row")
+        {
+            eval_row(r, host, root_name, path, force);
+            continue;
+        }
         if (force)
         {
             J a = ev("Obs");
             a.set("k", "ask").set("q", kind).set("path", path);
             emit(a);
         }
+        // single operator: lookup | isNull | isNumber | ... | select (with "i")
         std::string pe = path_expr(path);
-        if (kind != "row")
-        {
-            // single operator: lookup | isNull | isNumber | ... | select (with "i")
-            std::string text;
-            if (kind == "lookup") { text = "vd__r = [" + pe + "]"; }
-            else if (kind == "select") { text = "vd__r = [(" + pe + ") select " + std::to_string(q.num("i", 0)) + "]"; }
-            else { text = "vd__r = [" + kind + " (" + pe + ")]"; }
-            auto res = elem(r.run(text), 0);
-            J o = ev("Obs");
-            o.set("k", "q").set("q", kind).set("path", path).set("res", r.res);
-            if (!res.empty() && res.is<sqf::runtime::t_config>()) { o.set("r", cfg_json(host, res)); }
-            else { o.set("r", proj(res)); }
-            emit(o);
-            continue;
-        }
+        std::string text;
+        if (kind == "lookup") { text = "vd__r = [" + pe + "]"; }
+        else if (kind == "select") { text = "vd__r = [(" + pe + ") select " + std::to_string(q.num("i", 0)) + "]"; }
+        else { text = "vd__r = [" + kind + " (" + pe + ")]"; }
+        auto res = elem(r.run(text), 0);
         J o = ev("Obs");
-        o.set("k", "row").set("path", path);
-        // 1. the lookup itself and everything config.sqf also applies to configNull
-        auto r1 = r.run("vd__c = " + pe + "; vd__r = [vd__c, isNull vd__c, isNumber vd__c, isText vd__c, isArray vd__c, isClass vd__c, "
-                        "getNumber vd__c, getText vd__c, getArray vd__c]");
-        std::string res = r.res;
-        auto cv = elem(r1, 0);
-        bool isnull = cv.empty() || !cv.is<sqf::runtime::t_config>() || cv.data<sqf::types::d_config, config>().is_null();
-        J cj = cfg_json(host, cv);
-        o.set("null", isnull).set("at", cj.at("at"));
-        o.set("nullop", as_bool(elem(r1, 1)));
-        o.set("isn", as_bool(elem(r1, 2))).set("ist", as_bool(elem(r1, 3))).set("isa", as_bool(elem(r1, 4))).set("isc", as_bool(elem(r1, 5)));
-        o.set("num", proj(elem(r1, 6))).set("txt", proj(elem(r1, 7))).set("arr", proj(elem(r1, 8)));
-        // 2. operators that raise an error on configNull: only on entries that exist
-        J inh = J::obj(); inh.set("null", true).set("at", J::arr());
-        J hier = J::arr(), sel = J::arr();
-        long long cnt = 0;
-        std::string cname;
-        if (!isnull)
-        {
-            auto r2 = r.run("vd__r = [inheritsFrom vd__c, configHierarchy vd__c, count vd__c, configName vd__c]");
-            res += "/" + r.res;
-            inh = cfg_json(host, elem(r2, 0));
-            auto h = elem(r2, 1);
-            if (!h.empty() && h.is<sqf::runtime::t_array>())
-            {
-                for (auto& e : *h.data<sqf::types::d_array>())
-                {
-                    if (!e.empty() && e.is<sqf::runtime::t_string>()) { hier.push(e.data<sqf::types::d_string, std::string>()); }
-                    else if (!e.empty() && e.is<sqf::runtime::t_config>())
-                    {
-                        auto ec = e.data<sqf::types::d_config, config>();
-                        hier.push(ec.is_null() ? std::string("<null>") : std::string(ec.navigate(host)->name));
-                    }
-                    else { hier.push("?"); }
-                }
-            }
-            else { hier.push("<no array>"); }
-            auto cn = elem(r2, 2);
-            cnt = (!cn.empty() && cn.is<sqf::runtime::t_scalar>()) ? (long long)cn.data<sqf::types::d_scalar, float>() : -1;
-            auto nm = elem(r2, 3);
-            cname = (!nm.empty() && nm.is<sqf::runtime::t_string>()) ? nm.data<sqf::types::d_string, std::string>() : "<no string>";
-            if (cnt > 0 && cnt < 64)
-            {
-                std::string t = "vd__r = [";
-                for (long long i = 0; i < cnt; i++) { t += (i ? ", " : "") + std::string("vd__c select ") + std::to_string(i); }
-                t += "]";
-                auto r3 = r.run(t);
-                res += "/" + r.res;
-                for (long long i = 0; i < cnt; i++) { sel.push(cfg_json(host, elem(r3, (size_t)i))); }
-            }
-        }
-        o.set("name", cname).set("inh", inh).set("hier", hier).set("cnt", cnt).set("sel", sel).set("root", root_name).set("res", res);
+        o.set("k", "q").set("q", kind).set("path", path).set("res", r.res);
+        if (!res.empty() && res.is<sqf::runtime::t_config>()) { o.set("r", cfg_json(host, res)); }
+        else { o.set("r", proj(res)); }
         emit(o);
     }
 }
